@@ -191,7 +191,8 @@ def run_workers(pid, spec, tier, seed, binp, scratch, budget, extra_args=None, n
         os.makedirs(wdir, exist_ok=True)
         cmd = [binp, "-test.run", "^" + spec["test"] + "$", "-test.timeout", "0", "-test.count", "1",
                "-verif.seed", str(base + i), "-verif.stride", str(nwork), "-verif.budget", "%ds" % budget,
-               "-verif.out", outp, "-verif.tier", tier, "-verif.replaydir", os.path.join(VERIF, "replays")]
+               "-verif.out", outp, "-verif.tier", tier, "-verif.replaydir", os.path.join(VERIF, "replays"),
+               "-verif.known", os.path.join(VERIF, "known_findings.json")]
         if spec.get("mode"):
             cmd += ["-verif.mode", spec["mode"]]
         if extra_args:
@@ -229,7 +230,8 @@ def replay_fresh(spec, binp, path, scratch, n=3):
     for k in range(n):
         wdir = os.path.join(scratch, "replay%d" % k)
         os.makedirs(wdir, exist_ok=True)
-        cmd = [binp, "-test.run", "^" + spec["test"] + "$", "-test.timeout", "0", "-verif.replay", path]
+        cmd = [binp, "-test.run", "^" + spec["test"] + "$", "-test.timeout", "0", "-verif.replay", path,
+               "-verif.known", os.path.join(VERIF, "known_findings.json")]
         if spec.get("mode"):
             cmd += ["-verif.mode", spec["mode"]]
         env = goenv({"GOMAXPROCS": "1", "TMPDIR": wdir, "HOME": wdir, "RESTIC_CACHE_DIR": os.path.join(wdir, "rcache")})
@@ -252,6 +254,7 @@ def aggregate(pid, spec, tier, seed, results, trouble, wall, build_s):
     aborts = []
     steps = choices = budget_hit = 0
     simtime = 0.0
+    known_hits = {}
     for r in results:
         hashes.update(r.get("hashes") or [])
         for k, v in (r.get("stats") or {}).items():
@@ -265,6 +268,8 @@ def aggregate(pid, spec, tier, seed, results, trouble, wall, build_s):
         choices += r.get("choices", 0)
         budget_hit += r.get("budget_hit", 0)
         simtime += r.get("sim_time_s", 0)
+        for k, v in (r.get("known_findings") or {}).items():
+            known_hits[k] = known_hits.get(k, 0) + v
     faults = {k[6:]: v for k, v in stats.items() if k.startswith("fault:")}
     probes = {k[6:]: v for k, v in stats.items() if k.startswith("probe:")}
     ev = {
@@ -290,6 +295,7 @@ def aggregate(pid, spec, tier, seed, results, trouble, wall, build_s):
             "real_vs_stub": spec.get("real_vs_stub", ""),
             "harness_aborts": len(aborts),
             "build_s": round(build_s, 1),
+            "known_findings_met": known_hits,
         },
         "assumptions": spec.get("assumptions", []),
         "wall_s": round(wall, 2),
@@ -318,6 +324,10 @@ def check(pid, tier):
         known = load_known()
         new_viols = []
         printed_known = set()
+        for k in known:
+            if k.get("status") == "finding" and k.get("property") == pid and ev["coverage"]["known_findings_met"].get(k["id"]):
+                print("KNOWN-FINDING: property=%s %s" % (pid, k["text"]))
+                printed_known.add(k["id"])
         seen_sigs = set()
         for v in viols:
             k = known_match(pid, v["violation"], known)
